@@ -168,7 +168,8 @@ Record good_facts (c : cfg) : Prop := mkGF {
   gf_os : covers (sv_handler (c_save c)) FOSError = true;
   gf_sets : sv_handler_sets (c_save c) = Some true;
   gf_fin : sv_finally_sets (c_save c) = None;
-  gf_sched : forall fl, good_sched (sched_of c fl) = true
+  gf_sched : forall fl, good_sched (sched_of c fl) = true;
+  gf_alert : c_alert c = true
 }.
 
 Lemma sops_eqb_eq : forall a b, sops_eqb a b = true -> a = b.
@@ -181,6 +182,7 @@ Qed.
 Lemma good_gives : forall c, good c = true -> good_facts c.
 Proof.
   intros c H. unfold good in H.
+  apply andb_true_iff in H. destruct H as [H Halert].
   apply andb_true_iff in H. destruct H as [H Ha].
   apply andb_true_iff in H. destruct H as [Hs Hy].
   unfold good_save in Hs.
@@ -192,6 +194,7 @@ Proof.
   - destruct (sv_handler_sets (c_save c)) as [[|]|]; try discriminate; reflexivity.
   - destruct (sv_finally_sets (c_save c)); try discriminate; reflexivity.
   - destruct fl; assumption.
+  - assumption.
 Qed.
 
 Definition armed_after (o : owner) (a : bool) : bool := match o with OSched => true | OFinal => a end.
@@ -494,7 +497,7 @@ Proof.
       * intros v0 Hv0. rewrite Hv' in Hv0. inversion Hv0. subst v0. exact Hi.
       * eapply sched_progress; eauto.
   - (* message *)
-    destruct (apply_msg m (s_tree s)) as [t a] eqn:Em. simpl.
+    destruct (apply_msg m (s_tree s)) as [t a] eqn:Em. simpl. rewrite (gf_alert c G), andb_true_r.
     destruct a.
     + rewrite orb_true_r. constructor; simpl.
       * intros _ Hx; discriminate.
